@@ -920,7 +920,9 @@ def gen(rs: int, index: int, tier: str) -> Dict[str, Any]:
            "relative_paths": renv.random() < 0.3}
     # the client saves the database object, goes on and saves it again: the object has been written before
     prewrite = S.rng("prewrite").random() < 0.25
-    return {"base": base, "prelude": prelude, "pert": pert, "env": env, "norefresh": norefresh, "prewrite": prewrite,
+    # refresh() is called again on an already consistent database (before the first write / after the reload)
+    rerefresh = [S.rng("rerefresh").random() < 0.15, S.rng("rerefresh2").random() < 0.15]
+    return {"base": base, "prelude": prelude, "pert": pert, "env": env, "norefresh": norefresh, "prewrite": prewrite, "rerefresh": rerefresh,
             "entries": [e1, e2], "orders": [r.randint(0, 10**6), r.randint(0, 10**6)],
             "index_pos": [r.choice(["first", "last", "middle", "keep"]), r.choice(["first", "last", "middle", "keep"])],
             "clock": [1_700_000_000.0 + r.randint(0, 10**7), jump[0], jump[1]]}
@@ -1188,6 +1190,14 @@ def execute(trace: Dict[str, Any]) -> Dict[str, Any]:
                         outcome = "base-failed"
                         violations.append({"oracle": "C11.write", "sig": {"cls": "-", "field": "-", "vclass": "base", **exc_sig(e)},
                                            "detail": {"base": trace["base"], "msg": str(e)[:300], "stage": "second load of the base"}})
+                if outcome == "ok" and (trace.get("rerefresh") or [False])[0] and dbw is db0:
+                    try:
+                        db0.refresh()
+                        faults["refresh_called_again"] = faults.get("refresh_called_again", 0) + 1
+                    except Exception as e:  # noqa: BLE001 - refresh() worked a moment ago
+                        outcome = "refresh-failed"
+                        violations.append({"oracle": "C11.write", "sig": {"cls": cls, "field": field, "vclass": "re-refresh", **exc_sig(e)},
+                                           "detail": {"msg": str(e)[:200], "pert": pert, "stage": "second refresh() of the source database"}})
                 if outcome == "ok" and trace.get("prewrite"):
                     try:
                         odxtools.write_pdx_file(os.path.join(wd, "p0.pdx"), dbw)
@@ -1284,6 +1294,9 @@ def execute(trace: Dict[str, Any]) -> Dict[str, Any]:
                     sim_time = abs(float(trace["clock"][2]))
                     faults["clock_jump_" + trace["clock"][1]] = 1
                     p2 = os.path.join(wd, "p2.pdx")
+                    if (trace.get("rerefresh") or [False, False])[1]:
+                        db1.refresh()
+                        faults["refresh_called_again"] = faults.get("refresh_called_again", 0) + 1
                     odxtools.write_pdx_file(p2, db1)
                     m1, m2 = odx_members(p1), odx_members(p2)
                     if collateral:
